@@ -530,6 +530,12 @@ impl PassGroup {
         output
     }
 
+    /// Verification hook: the ordered list of passes in this group.
+    #[cfg(fuellabs_sway_verif)]
+    pub fn verif_flatten(&self) -> Vec<&'static str> {
+        self.flatten_pass_group()
+    }
+
     /// Append a pass to this group.
     pub fn append_pass(&mut self, pass: &'static str) {
         self.0.push(PassOrGroup::Pass(pass));
